@@ -56,7 +56,7 @@ Definition entry_cf (a : list str) : list str :=
   | fuel :: toks =>
       match dec_program toks with
       | Some p => show_model (run_model (dec_nat fuel) p) ++ [lit "|"] ++ show_spec (run_spec (dec_nat fuel) p)
-                  ++ [lit "|"; show_reasons (scope_program p)]
+                  ++ [lit "|"; show_reasons (scope_program p); (if parser_hazard p then lit "K" else []) ++ (if stage_call_hazard p then lit "U" else [])]
       | None => [lit "?decode"]
       end
   | [] => [lit "?args"]
